@@ -84,10 +84,24 @@ fn run_enc(ctx: &mut Ctx) {
 struct KCache(std::collections::HashMap<String, u32>);
 
 impl KCache {
-    fn k(&mut self, rel: &MixRelation) -> u32 {
-        let key = rel.steps.iter().map(|s| format!("{}:{}", s.path.tag(), s.proto.tag())).collect::<Vec<_>>().join(" ");
-        *self.0.entry(key).or_insert_with(|| rel::min_k(rel))
+    fn key(rel: &MixRelation) -> String {
+        rel.steps.iter().map(|s| format!("{}:{}", s.path.tag(), s.proto.tag())).collect::<Vec<_>>().join(" ")
     }
+    fn k(&mut self, rel: &MixRelation) -> u32 {
+        *self.0.entry(Self::key(rel)).or_insert_with(|| rel::min_k(rel))
+    }
+    fn set(&mut self, rel: &MixRelation, k: u32) {
+        self.0.insert(Self::key(rel), k);
+    }
+}
+
+/// Recorded finding (see /verif/findings/C08.json): a Jubjub scalar whose in-circuit bit
+/// vector is longer than 252 bits (`convert` from a native value: d0; `scalar_from_le_bytes`
+/// on 32 bytes or more: dN, N >= 32).
+const KEY_JSCALAR: &str = "jscalar-exposure:bits>252";
+
+fn has_long_jscalar(rel: &MixRelation) -> bool {
+    rel.steps.iter().any(|s| matches!((&s.proto, s.path), (Item::JScalar(_), Path::Derived(n)) if n == 0 || n >= 32))
 }
 
 /// One exposure case: the relation exposing `steps` with values `items`.
@@ -106,12 +120,30 @@ fn expose_case(ctx: &mut Ctx, kc: &mut KCache, kind: &str, steps: Vec<Step>, ite
         }
     );
     let key = format!("expose:{line}");
-    let r = mzkh::catch(|| {
-        let k = kc.k(&rel);
-        let (plain, com) = rel::raw_vectors(&rel, &items);
-        let obs = rel::observe(&rel, &items, k, &com, &plain)?;
-        Ok::<_, String>((k, plain, com, obs))
-    });
+    // `min_k` (cost model) does not count the rows taken by constants: grow k while the
+    // synthesis runs out of rows.
+    let mut k = match mzkh::catch(|| kc.k(&rel)) {
+        Ok(k) => k,
+        Err(_) => 9,
+    };
+    let r = loop {
+        let r = mzkh::catch(|| {
+            let (plain, com) = rel::raw_vectors(&rel, &items);
+            let obs = rel::observe(&rel, &items, k, &com, &plain)?;
+            Ok::<_, String>((k, plain, com, obs))
+        });
+        let out_of_rows = match &r {
+            Ok(Err(e)) => e.contains("NotEnoughRows"),
+            Err(p) => p.contains("usable_rows") || p.contains("minimum_rows"),
+            _ => false,
+        };
+        if out_of_rows && k < 14 {
+            k += 1;
+            kc.set(&rel, k);
+            continue;
+        }
+        break r;
+    };
     let (k, plain, com, obs) = match r {
         Ok(Ok(x)) => x,
         Ok(Err(e)) => {
@@ -186,8 +218,10 @@ fn expose_case(ctx: &mut Ctx, kc: &mut KCache, kind: &str, steps: Vec<Step>, ite
             && b.cells.iter().zip(enc).all(|(c, e)| c.as_ref() == Some(e))
     };
     if !check(&obs.plain, &plain) || !check(&obs.committed, &com) {
+        // the recorded finding: more rows bound than the encoding has, everything else fine
+        let known = has_long_jscalar(&rel) && accepted_edits.is_empty() && obs.plain.rows.len() > plain.len();
         ctx.oracle_fail(
-            &key,
+            if known { KEY_JSCALAR } else { &key },
             "the instance rows bound by the circuit are not exactly the positions of the off-circuit encoding",
             json!({"line": line, "k": k, "plain": fq_list(&plain), "committed": fq_list(&com), "bound": ans}),
         );
@@ -251,7 +285,7 @@ fn run_expose_single(ctx: &mut Ctx) {
     for p in [Path::Constrain, Path::Assign, Path::Fixed, Path::Derived(0), Path::Derived(1), Path::Derived(31), Path::Derived(32), Path::Derived(64)] {
         for s in jscalars(&mut rng, nr) {
             if let Path::Derived(n) = p {
-                if n >= 1 && n < 32 && mzkh::fe_big(&s).bits() > 8 * n as u64 {
+                if n >= 1 && n < 32 && big_of(&s).bits() > 8 * n as u64 {
                     continue;
                 }
             }
